@@ -262,6 +262,56 @@ fn breach(local: &str, delegates: &[String], pre: &BTreeMap<String, String>, res
     }
 }
 
+/// Replay a chunk of behaviours in a world of its own. Returns failure/drift records and
+/// [steps, cleans, cleans removing something, violations, drift].
+fn replay_chunk(work: &Path, cases: Vec<(usize, Value)>) -> (Vec<Value>, [u64; 5]) {
+    let nodes: Vec<String> = ["L", "d1", "d2", "f", "o"].iter().map(|s| s.to_string()).collect();
+    let mut w = World::new(work, nodes);
+    let mut recs = Vec::new();
+    let (mut steps_n, mut cleans, mut removing, mut bad, mut drift) = (0u64, 0u64, 0u64, 0u64, 0u64);
+    for (ci, c) in cases.iter() {
+        let delegates = strs(&c["delegates"]);
+        let init = str_map(&c["init"]);
+        let rid = w.setup(&delegates, &init);
+        let (e0, p0) = w.project(&rid);
+        if !e0 || p0 != init {
+            fatal(&format!("case {ci}: could not materialise {init:?}: got {p0:?}"));
+        }
+        let mut pre = p0;
+        for (si, s) in c["steps"].as_array().unwrap().iter().enumerate() {
+            let op = s["op"].as_str().unwrap();
+            let arg = s["arg"].as_str().unwrap();
+            let (res, ret, detail) = w.step(&rid, op, arg);
+            let (exists, post) = w.project(&rid);
+            steps_n += 1;
+            let mut viol = None;
+            if op == "clean" {
+                cleans += 1;
+                if !exists || post != pre {
+                    removing += 1;
+                }
+                viol = breach("L", &delegates, &pre, &res, exists, &post);
+            }
+            let same = res == s["res"].as_str().unwrap() && ret == strs(&s["ret"]) && exists == s["exists"].as_bool().unwrap() && post == str_map(&s["ns"]);
+            if viol.is_some() {
+                bad += 1;
+            } else if !same {
+                drift += 1;
+            }
+            if viol.is_some() || (!same && recs.len() < 200) {
+                recs.push(json!({"ok": viol.is_none(), "drift": viol.is_none() && !same, "case": ci, "step": si, "delegates": delegates, "init": init,
+                    "steps": c["steps"], "breach": viol, "pre": pre, "expected": {"res": s["res"], "ret": s["ret"], "exists": s["exists"], "ns": s["ns"]},
+                    "actual": {"res": res, "ret": ret, "exists": exists, "ns": post, "detail": detail}}));
+            }
+            if viol.is_some() || !same {
+                break; // later steps of this behaviour start from a different state
+            }
+            pre = post;
+        }
+    }
+    (recs, [steps_n, cleans, removing, bad, drift])
+}
+
 fn main() {
     let args = Args::parse();
     quiet_panics();
@@ -271,54 +321,37 @@ fn main() {
     match mode.as_str() {
         "replay" => {
             let cases = read_ndjson(Path::new(args.req("--cases")));
-            let nodes: Vec<String> = ["L", "d1", "d2", "f", "o"].iter().map(|s| s.to_string()).collect();
-            let mut w = World::new(&work, nodes);
-            let (mut steps_n, mut cleans, mut removing, mut bad, mut drift, mut logged) = (0u64, 0u64, 0u64, 0u64, 0u64, 0);
-            for (ci, c) in cases.iter().enumerate() {
-                let delegates = strs(&c["delegates"]);
-                let init = str_map(&c["init"]);
-                let rid = w.setup(&delegates, &init);
-                let (e0, p0) = w.project(&rid);
-                if !e0 || p0 != init {
-                    fatal(&format!("case {ci}: could not materialise {init:?}: got {p0:?}"));
-                }
-                let mut pre = p0;
-                for (si, s) in c["steps"].as_array().unwrap().iter().enumerate() {
-                    let op = s["op"].as_str().unwrap();
-                    let arg = s["arg"].as_str().unwrap();
-                    let (res, ret, detail) = w.step(&rid, op, arg);
-                    let (exists, post) = w.project(&rid);
-                    steps_n += 1;
-                    let mut viol = None;
-                    if op == "clean" {
-                        cleans += 1;
-                        if !exists || post != pre {
-                            removing += 1;
-                        }
-                        viol = breach("L", &delegates, &pre, &res, exists, &post);
-                    }
-                    let same = res == s["res"].as_str().unwrap() && ret == strs(&s["ret"]) && exists == s["exists"].as_bool().unwrap() && post == str_map(&s["ns"]);
-                    if viol.is_some() {
-                        bad += 1;
-                    } else if !same {
-                        drift += 1;
-                    }
-                    if viol.is_some() || (!same && logged < 50) {
-                        if viol.is_none() {
+            let nthreads = (args.num("--threads", 4) as usize).max(1);
+            let mut chunks: Vec<Vec<(usize, Value)>> = (0..nthreads).map(|_| Vec::new()).collect();
+            for (ci, c) in cases.into_iter().enumerate() {
+                chunks[ci % nthreads].push((ci, c));
+            }
+            let ncases: usize = chunks.iter().map(|c| c.len()).sum();
+            let handles: Vec<_> = chunks
+                .into_iter()
+                .map(|chunk| {
+                    let work = work.clone();
+                    std::thread::spawn(move || replay_chunk(&work, chunk))
+                })
+                .collect();
+            let mut tot = [0u64; 5];
+            let mut logged = 0;
+            for h in handles {
+                let (recs, counts) = h.join().unwrap_or_else(|_| fatal("replay thread panicked"));
+                for r in recs {
+                    if r["ok"] == false || logged < 50 {
+                        if r["ok"] != false {
                             logged += 1;
                         }
-                        o.emit(&json!({"ok": viol.is_none(), "drift": viol.is_none() && !same, "case": ci, "step": si, "delegates": delegates, "init": init,
-                            "steps": c["steps"], "breach": viol, "pre": pre, "expected": {"res": s["res"], "ret": s["ret"], "exists": s["exists"], "ns": s["ns"]},
-                            "actual": {"res": res, "ret": ret, "exists": exists, "ns": post, "detail": detail}}));
+                        o.emit(&r);
                     }
-                    if viol.is_some() || !same {
-                        break; // later steps of this behaviour start from a different state
-                    }
-                    pre = post;
+                }
+                for i in 0..5 {
+                    tot[i] += counts[i];
                 }
             }
-            o.emit(&json!({"summary": true, "behaviours": cases.len(), "steps": steps_n, "cleans": cleans, "cleans_removing_something": removing,
-                "violations": bad, "drift": drift}));
+            o.emit(&json!({"summary": true, "behaviours": ncases, "steps": tot[0], "cleans": tot[1], "cleans_removing_something": tot[2],
+                "violations": tot[3], "drift": tot[4]}));
         }
         "record" => {
             let n = args.num("--n", 60) as usize;
